@@ -483,6 +483,7 @@ package fsm
 //@ func (*StateMachine).HandleMessageUnstake
 //@   ensures[conserve] result == nil ==> drift(s) == old(drift(s)) && supTotal(s) == old(supTotal(s)) && acctBal() == old(acctBal()) && poolBal() == old(poolBal()) && stakeSum(s) == old(stakeSum(s))
 //@ func (*StateMachine).HandleMessagePause
+//@   ensures[always] drift(s) == old(drift(s)) && acctBal() == old(acctBal()) && poolBal() == old(poolBal())
 //@   ensures[conserve] result == nil ==> drift(s) == old(drift(s)) && supTotal(s) == old(supTotal(s)) && acctBal() == old(acctBal()) && poolBal() == old(poolBal()) && stakeSum(s) == old(stakeSum(s))
 //@ func (*StateMachine).HandleMessageUnpause
 //@   ensures[conserve] result == nil ==> drift(s) == old(drift(s)) && supTotal(s) == old(supTotal(s)) && acctBal() == old(acctBal()) && poolBal() == old(poolBal()) && stakeSum(s) == old(stakeSum(s))
@@ -542,9 +543,11 @@ package fsm
 // a status change re-writes the record: the abstract stake of that validator becomes the record's StakedAmount
 // (unchanged when the record was loaded from state and not altered)
 //@ func (*StateMachine).SetValidatorPaused
+//@   ensures[failsafe] result != nil ==> stakeOf() == old(stakeOf()) && stakeSum(s) == old(stakeSum(s))
 //@   ensures[marker] result == nil ==> kvHas(pausedKey(maxPausedHeight, addrOf(address))) && validator.MaxPausedHeight == maxPausedHeight
 //@   ensures[stake] result == nil ==> stakeOf() == old(store(stakeOf(), bytes(validator.Address), validator.StakedAmount)) && stakeSum(s) == old(stakeSum(s)) - old(stakeOf(bytes(validator.Address))) + old(validator.StakedAmount)
 //@ func (*StateMachine).SetValidatorUnpaused
+//@   ensures[failsafe] result != nil ==> stakeOf() == old(stakeOf()) && stakeSum(s) == old(stakeSum(s))
 //@   ensures[marker] result == nil ==> !kvHas(pausedKey(old(validator.MaxPausedHeight), addrOf(address))) && validator.MaxPausedHeight == 0
 //@   ensures[others] result == nil ==> forall h int, a BSeq :: kvHas(unstakeKey(h, a)) == old(kvHas(unstakeKey(h, a)))
 //@   ensures[stake] result == nil ==> stakeOf() == old(store(stakeOf(), bytes(validator.Address), validator.StakedAmount)) && stakeSum(s) == old(stakeSum(s)) - old(stakeOf(bytes(validator.Address))) + old(validator.StakedAmount)
@@ -616,12 +619,22 @@ package fsm
 //@ func (*StateMachine).SlashDoubleSigners
 //@   requires[params] wfValParams(params)
 //@   ensures[conserve] result == nil ==> drift(s) == old(drift(s)) && acctBal() == old(acctBal()) && poolBal() == old(poolBal())
+// iterating a key range runs the callback on each entry and otherwise only reads the store: its effects are
+// its callback's (ASSUMED of the iterator plumbing)
+//@ func (*StateMachine).IterateAndExecute
+//@   trusted
+//@   modifies callback(callback)
+// automatic pausing of a list of validators moves no tokens, whether or not each individual pause succeeds
+//@ func (*StateMachine).EventAutoPause
+//@   trusted
+//@   modifies lib.EventsTracker.Events, elems(*lib.Event)
+//@ func (*StateMachine).SetValidatorsPaused
+//@   loop 1 invariant[conserve] drift(s) == old(drift(s)) && acctBal() == old(acctBal()) && poolBal() == old(poolBal())
+//@   ensures[conserve] drift(s) == old(drift(s)) && acctBal() == old(acctBal()) && poolBal() == old(poolBal())
 //@ func (*StateMachine).SlashAndResetNonSigners
-//@   modifies *
 //@   requires[params] wfValParams(params)
-// (its iteration callback runs through the store iterator interface, outside the generator's frame inference;
-// that it leaves the parameter object alone is ASSUMED)
-//@   assumed[paramsframe] unchanged(params.NonSignSlashPercentage, params.DoubleSignSlashPercentage, params.MaxSlashPerCommittee)
+//@   ensures[paramsframe] unchanged(params.NonSignSlashPercentage, params.DoubleSignSlashPercentage, params.MaxSlashPerCommittee)
+//@   ensures[conserve] err == nil ==> drift(s) == old(drift(s)) && acctBal() == old(acctBal()) && poolBal() == old(poolBal())
 //@ func (*StateMachine).SlashValidator
 //@   requires[percent] percent <= 100 && p != nil && p.MaxSlashPerCommittee <= 100
 //@   callsite AddSlash requires[cap] slashTotal < p.MaxSlashPerCommittee && slashTotal + callee.percent <= p.MaxSlashPerCommittee && callee.percent == percent
@@ -705,3 +718,7 @@ package fsm
 //@   callsite AccountAdd requires[tooutput] validator.Output != nil ==> addrOf(callee.address) == bytes(validator.Output) && callee.amountToAdd == validator.StakedAmount
 //@   ensures[conserve] isnil(result) ==> drift(s) == old(drift(s)) && supTotal(s) == old(supTotal(s)) && poolBal() == old(poolBal())
 
+
+// byzantine-evidence handling (non-signer settlement, non-signer counting, double-signer slashing) only burns
+//@ func (*StateMachine).HandleByzantine
+//@   ensures[conserve] err == nil ==> drift(s) == old(drift(s)) && acctBal() == old(acctBal()) && poolBal() == old(poolBal())
